@@ -91,6 +91,72 @@ class Quant:
             return {(True, True, False), (False, True, False), (True, False, False), (False, False, False)}
         return {(True, False, False), (False, False, False)}
 
+    def values_at(self, assigns):
+        """assigns: {node id of an assignment: value expression}.  Returns {node id: set of (assigned value, a membership test said
+        'not a member' on the path or inside the value)} over all CFG paths (same exact product as run())."""
+        seen_vals = {k: set() for k in assigns}
+        g = self.g
+        init = (g.entry, 0, frozenset(), False, False)
+        seen = {init}
+        work = [init]
+        while work:
+            b, i, envf, failed, kindok = work.pop()
+            env = dict(envf)
+            blk = g.blocks[b]
+            els = blk['el']
+            j = i
+            forked = False
+            while j < len(els):
+                nid = els[j]
+                n = self.f.nodes.get(nid)
+                if n is not None:
+                    if self.spec.reset(n):
+                        failed, kindok = False, False
+                    if nid in assigns:
+                        for v, fd, kd in self.ev(assigns[nid], env):
+                            seen_vals[nid].add((v, failed or fd))
+                    tgt = rhs = None
+                    if n['k'] == 'DeclStmt':
+                        for d in n.get('decls', []):
+                            if d['lid'] in self.locals and d.get('init') is not None:
+                                tgt, rhs = d['lid'], d['init']
+                    elif n['k'] in ('BinaryOperator', 'CompoundAssignOperator') and n.get('op') == '=':
+                        l = strip(n['c'][0])
+                        if l['k'] == 'DeclRefExpr' and l.get('ref', {}).get('lid') in self.locals:
+                            tgt, rhs = l['ref']['lid'], n['c'][1]
+                    if tgt is not None:
+                        for v, fd, kd in self.ev(rhs, env):
+                            e2 = dict(env)
+                            e2[tgt] = v
+                            st = (b, j + 1, frozenset(e2.items()), failed or fd, kindok or kd)
+                            if st not in seen:
+                                seen.add(st)
+                                work.append(st)
+                        forked = True
+                        break
+                j += 1
+            if forked:
+                continue
+            succ = g.succ_labeled(b)
+            cond = blk.get('cond')
+            cn = self.f.nodes.get(cond) if cond is not None else None
+            if cn is not None and any(l is not None for s_, l in succ):
+                outs = self.ev(cn, env)
+                for s_, lab in succ:
+                    for v, fd, kd in outs:
+                        if lab is None or v == lab:
+                            st = (s_, 0, frozenset(env.items()), failed or fd, kindok or kd)
+                            if st not in seen:
+                                seen.add(st)
+                                work.append(st)
+            else:
+                for s_, lab in succ:
+                    st = (s_, 0, frozenset(env.items()), failed, kindok)
+                    if st not in seen:
+                        seen.add(st)
+                        work.append(st)
+        return seen_vals
+
     def run(self, results, need_kind=False, only_after_failure=False):
         """results: node ids of result sites.  Returns list of (node id, reason, path) for result sites reachable in a bad state."""
         g = self.g
